@@ -193,7 +193,7 @@ func (w *World) Observe() J {
 	// tradeshield
 	so := []J{}
 	for _, o := range app.TradeshieldKeeper.GetAllPendingSpotOrder(ctx) {
-		so = append(so, J{"id": o.OrderId, "owner": o.OwnerAddress, "type": int32(o.OrderType), "amount": []string{o.OrderAmount.Denom, intStr(o.OrderAmount.Amount)},
+		so = append(so, J{"kind": int32(o.OrderType), "id": o.OrderId, "owner": o.OwnerAddress, "type": int32(o.OrderType), "amount": []string{o.OrderAmount.Denom, intStr(o.OrderAmount.Amount)},
 			"target": o.OrderTargetDenom, "rate": decRaw(o.OrderPrice.Rate), "base": o.OrderPrice.BaseDenom, "quote": o.OrderPrice.QuoteDenom,
 			"escrow": tstypes.GetSpotOrderAddress(o.OrderId).String()})
 	}
@@ -209,6 +209,10 @@ func (w *World) Observe() J {
 	for _, dn := range []string{"uatom", "uelys", "uusdc"} {
 		prices = append(prices, []string{dn, decRaw(app.OracleKeeper.GetAssetPriceFromDenom(ctx, dn))})
 	}
-	st["oracle"] = J{"denomPrices": prices, "nPrices": len(app.OracleKeeper.GetAllPrice(ctx))}
+	perpAtom := "0"
+	if p, err := app.PerpetualKeeper.GetAssetPrice(ctx, "uatom"); err == nil {
+		perpAtom = decRaw(p)
+	}
+	st["oracle"] = J{"denomPrices": prices, "nPrices": len(app.OracleKeeper.GetAllPrice(ctx)), "perpAtom": perpAtom}
 	return st
 }
